@@ -298,4 +298,18 @@ func init() {
 		},
 		TrustedBase: []string{stdTrusted, regoTrusted},
 	})
+
+	reg(&PropertySpec{
+		ID: "C15", Level: "translation_validation", Extra: regoC15,
+		Rule: "one program pair = (base profile, rewritten text); both are translated by the real parser+generator, both modules are evaluated on the SAME symbolic graph and z3 decides whether any graph gives different (severity, validation, focus node, message) result sets",
+		Harnesses: func(tier string) []HarnessSpec {
+			return []HarnessSpec{{Pkg: "internal/validator", Fn: "VerifC06Generate", Native: "VerifC06GenerateNative", Reach: []string{"generated-twice"}, Bounds: map[string]any{"note": "Go map iteration orders: the generated text itself is order-independent (C06), so one module per text suffices"}}}
+		},
+		Assumptions: []string{
+			"rewrite catalogue: reverse / rotate every mapping, level list and and/or operand list; rename the prefix; a second prefix bound to the same namespace; single/double/plain quoting, flow style, comments, indentation — applied to 3 base profiles in which every mapping and list has 2-4 entries",
+			"graphs of 2 (quick) / 3 (thorough) nodes, <= 2 values per property; yaml.v3 runs natively on each concrete text",
+			"arbitrary permutations beyond reverse/rotate and rewrites outside the catalogue are outside the bound",
+		},
+		TrustedBase: []string{stdTrusted, regoTrusted},
+	})
 }
